@@ -8,12 +8,13 @@ CONSTANTS
   TGs = {"ok", "stale"}
   Exts = {"le", "ce", "fence", "ld1", "ld2", "ld3"}
   WfExtra = {"blocked", "failed"}
+  BatchRGs = {"none", "ok", "ce", "le", "ld", "ftok", "fver"}
   MaxCE = 1000000
   MaxLE = 1000000
   MaxFver = 1000000
   LateReset = FALSE
 CONSTRAINT Track
 INVARIANTS Conform TypeOK C17_MetaValid C17_OneActive C17_Irreversible
-PROPERTIES C17_ProofCurrent C17_CutoverOnlyByCommit C17_FenceOwner C17_RejectedUnchanged C17_AbortOnlyBeforeCutover
+PROPERTIES C17_ProofCurrent C17_CutoverOnlyByCommit C17_FenceOwner C17_RejectedUnchanged C17_AbortOnlyBeforeCutover C17_BatchAsSequence
 POSTCONDITION Accepted0
 CHECK_DEADLOCK FALSE
